@@ -35,7 +35,7 @@ func c13Suppressed(p *Prog, cons string) (string, bool) {
 
 func c13(c *Ctx) {
 	p, r := c.K1(), c.R
-	r.Expl = "Structural clauses behind 'configuration mistakes are rejected up front and leave nothing patched': (R1) inside every function of the apply chain each call that can reach a text write is dominated by the err==nil continuation of every earlier fallible in-module call, signature checking lies on every static path from the checked entry points to the patch installer, and proxy.Interface returns no error after it mutated anything; (R2) no error result of an in-module call is dropped in the mocking packages; (R3) every erro type with Cause() is Traceable so the chain can be walked; (R4) every exported erro error type is actually constructed by a constructor; (R5) the count/size reject conditions compare exactly the quantities the property names. That every mistake class is detected for every value is not decided. (R7) no validation test is left without a consequence; (R8) on the side of an error test where the error is nil it is not reported (inverted tests); (R9) for a variadic function the list converters refuse exactly the lists too short to cover the fixed parameters."
+	r.Expl = "Structural clauses behind 'configuration mistakes are rejected up front and leave nothing patched': (R1) inside every function of the apply chain each call that can reach a text write is dominated by the err==nil continuation of every earlier fallible in-module call, signature checking lies on every static path from the checked entry points to the patch installer, and proxy.Interface returns no error after it mutated anything; (R2) no error result of an in-module call is dropped in the mocking packages; (R3) every erro type with Cause() is Traceable so the chain can be walked; (R4) every exported erro error type is actually constructed by a constructor; (R5) the count/size reject conditions compare exactly the quantities the property names. That every mistake class is detected for every value is not decided. (R7) no validation test is left without a consequence; (R8) on the side of an error test where the error is nil it is not reported (inverted tests); (R9) for a variadic function the list converters refuse exactly the lists too short to cover the fixed parameters; (R10) a precondition panic of the configuration API is on the side of its test that names the mistake (empty name, missing As(), method not found, wrong kind); (R11) a mocker that resolves methods by name looks the name up when it is given."
 	r.RuleText = "one obligation per (rule, call site / function / type)"
 	r.Floor("C13.R1", 5)
 	r.Floor("C13.R2", 20)
@@ -509,6 +509,9 @@ func c13(c *Ctx) {
 		}
 	}
 	r.Stat("variadic_count_checks", nConv)
+
+	c13Preconditions(p, r)
+	c13MethodNameValidated(p, r)
 
 	// ---- R3/R4 erro types
 	ep := p.Pkg("erro")
@@ -1293,6 +1296,42 @@ func checkErrorPolarity(p *Prog, r *Report, rule string, inPk func(string) bool)
 						for _, a := range c.Args {
 							if a == e || varargsDependOn(a, isE) {
 								bad = "hands it to " + calleeName(c) + " at " + p.Pos(posOf(ins))
+							}
+						}
+					}
+				}
+			}
+			// on the side where the error is non-nil, the other results of the failed call are not used
+			if ex, isEx := e.(*ssa.Extract); isEx && len(nonNil.Preds) == 1 && bad == "" {
+				if tc, isCall := ex.Tuple.(*ssa.Call); isCall && tc.Referrers() != nil {
+					if cal := staticCallee(tc.Common()); cal != nil && strings.HasPrefix(pkgPathOf(cal), Mod) {
+						for _, ref := range *tc.Referrers() {
+							sib, ok := ref.(*ssa.Extract)
+							if !ok || sib == ex || sib.Referrers() == nil {
+								continue
+							}
+							for _, use := range *sib.Referrers() {
+								ub := use.Block()
+								if ph, isPhi := use.(*ssa.Phi); isPhi {
+									// a phi uses the value on the edge it arrives by
+									for k, edge := range ph.Edges {
+										if edge == ssa.Value(sib) && (ub.Preds[k] == nonNil || nonNil.Dominates(ub.Preds[k])) {
+											if _, isRet := lastInstr(ub).(*ssa.Return); !isRet {
+												bad = "uses another result of the failed call at " + p.Pos(posOf(use))
+											}
+										}
+									}
+									continue
+								}
+								if _, isRet := use.(*ssa.Return); isRet {
+									continue // returning (value, err) together is the usual report
+								}
+								if _, isDbg := use.(*ssa.DebugRef); isDbg {
+									continue
+								}
+								if ub == nonNil || nonNil.Dominates(ub) {
+									bad = "uses another result of the failed call at " + p.Pos(posOf(use))
+								}
 							}
 						}
 					}
